@@ -209,6 +209,7 @@ func eListID(r *rng) int {
 }
 
 func genC04Parse(r *rng, n int, w *bufio.Writer) {
+	r = eReseed(r)
 	for i := 0; i < n; i++ {
 		t := eGenParseText(r)
 		id := eListID(r)
@@ -226,6 +227,7 @@ func genC04Parse(r *rng, n int, w *bufio.Writer) {
 }
 
 func genC04TextMatch(r *rng, n int, w *bufio.Writer) {
+	r = eReseed(r)
 	for i := 0; i < n; i++ {
 		var t string
 		var f *rules.NetworkRule
